@@ -97,6 +97,7 @@ UNITS = {
             I(RAW, r'^impl < T , A : Allocator > RawTable < T , A >$', 'erase', impl='RawTable<T>', key='RawTable::erase'),
             I(RAW, r'^impl < T , A : Allocator > RawTable < T , A >$', 'remove', impl='RawTable<T>', key='RawTable::remove'),
             I(RAW, r'^impl < T , A : Allocator > RawTable < T , A >$', 'replace_bucket_with', impl='RawTable<T>', key='RawTable::replace_bucket_with'),
+            I(RAW, r'^impl < T , A : Allocator > RawTable < T , A >$', 'insert_no_grow', impl='RawTable<T>', key='RawTable::insert_no_grow'),
             dict(I(RAW, r'^impl < T : Clone , A : Allocator \+ Clone > RawTable < T , A >$', 'clone_from_impl', impl='RawTable<T>', key='clone_from_impl::guard'),
                  closure='guard((0, &mut *self), |(index, self_)| {',
                  new_sig='unsafe fn clone_from_impl_guard(index: &usize, self_: &mut RawTable<T>)'),
